@@ -12,10 +12,10 @@ RULE = ("E1: BFS over histories of do(ok|raise)/grow(1)/shrink(1|all)/limit chan
         "invariants after every transition, completion oracle in every quiescent state. E2: every schedule (preemption bound) of "
         "2 submitter threads against the real LockWorker/ThreadWorker/ThreadPool code with cooperative Lock/Queue/Thread. "
         "non-trivial = distinct canonical states in which a task was backlogged, a shrink was deferred or quit was requested")
-BOUNDS = {"quick": "E1 depth 8, <= 3 tasks, limit in {0,1,2}; E2 preemption bound 2", "thorough": "E1 depth 11, <= 4 tasks; E2 preemption bound 3"}
+BOUNDS = {"quick": "E1 depth 10, <= 3 tasks, limit in {0,1,2}; E2 preemption bound 2", "thorough": "E1 depth 12, <= 4 tasks; E2 preemption bound 3"}
 ASSUMPTIONS = ["E1 serialises coordinator work exactly as an IExclusiveWorker must; which thread performs it is explored in E2",
                "canonical state = limit, quit flag, labelled coordinator queue, per-worker queue/quit flag, per-task accepted/run counts, Team.statistics() and deferred-shrink counter"]
-MIN = {"quick": {"states": 3000, "nontrivial": 1000, "outcomes": 6}}
+MIN = {"quick": {"states": 1000000, "nontrivial": 200000, "outcomes": 6}}
 ENGINE = "mc.bfs"
 TECHNIQUE = "explicit-state BFS over the real Team (in-memory workers) + exhaustive schedule enumeration of the real thread-backed pool under a controlled scheduler"
 
@@ -234,7 +234,7 @@ def run_shard(shard, tier, seed):
         from checks import _c49_sched
         return _c49_sched.run_shard(shard[1:], tier)
     _, lim, first, order = shard
-    depth = 8 if tier == "quick" else 11
+    depth = 10 if tier == "quick" else 12
     maxtasks = 3 if tier == "quick" else 4
     stats = Stats()
 
